@@ -253,5 +253,28 @@ PROPS["C02"] = dict(
     ],
 )
 
+PROPS["C01"] = dict(
+    title="Every front-end delivers the request the peer sent, however it is segmented",
+    level="model_checking",
+    trusted_base=COMMON_TB + ["connection objects are raw storage with the buffers and the string pool constructed (page size 48); string_map::add is a recorder"],
+    assumptions=["names and values contain no NUL byte (they become C strings)"],
+    outside="HTTP header tokenizer and request line (std::stack/std::string state machine: no verdict within budget), FastCGI record reassembly, cross-front-end equivalence, keep-alive sequencing, cookies and form fields (urldecode: C15), socket layer",
+    obligations=[
+        dict(id="C01.c", harness="C01_fastcgi.cpp", entry="h_c01c_fcgi_roundtrip", ctors=False, clang_flags=["-fno-inline"],
+             drop=["_ZN6cppcms4impl10string_map3addEPKcS3_"], roots=["verif_env_add"], models=["stubs_c02.c"],
+             desc="fastcgi::parse_pairs/read_len: decoding the FastCGI name-value encoding (1-byte and 4-byte length forms, chosen symbolically per field) returns exactly the encoded pairs in order",
+             tiers=T(quick=dict(split=[[1, 3], [0, 2]], unwind=22, unwindset={"F__ZN6cppcms4impl3cgi7fastcgi11parse_pairsEv.0": 4, "verif_memcpy.0": 6, "F__ZN6cppcms4impl11string_pool3addEPKcm.0": 5, "F__ZL15cstrlen_boundedPKh.0": 6}, timeout=900, bounds="first pair: name length in {1,3}, value length in {0,2}, symbolic bytes; second pair fixed; each of 4 length fields in either form"))),
+        dict(id="C01.e", harness="C02_scgi.cpp", entry="h_c01e_scgi_pairs", ctors=False, clang_flags=["-fno-inline"],
+             drop=["_ZN6cppcms4impl10string_map3addEPKcS3_"], roots=["verif_env_add"], models=["stubs_c02.c"],
+             desc="scgi::on_headers_chunk_read: a well-formed netstring header block delivers exactly its NUL-separated pairs, in order",
+             tiers=T(quick=dict(split=[[1, 3], [0, 2]], unwind=22, unwindset={SCGI_WALK: 5, "X_strlen.0": 6, "verif_memcpy.0": 6, "F__ZL15cstrlen_boundedPKh.0": 6}, timeout=900, bounds="first pair: name length in {1,3}, value length in {0,2}, symbolic bytes; second pair fixed"))),
+    ],
+)
+PROPS["C02"]["obligations"].append(
+        dict(id="C02.c", harness="C01_fastcgi.cpp", entry="h_c02c_fcgi_safety", ctors=False, clang_flags=["-fno-inline"],
+             drop=["_ZN6cppcms4impl10string_map3addEPKcS3_"], roots=["verif_env_add"], models=["stubs_c02.c"],
+             desc="fastcgi::parse_pairs on an arbitrary params body never reads outside body_ (length fields up to 2^31 included)",
+             tiers=T(quick=dict(split=[[0, 1, 2, 4, 6]], unwind=12, unwindset={"F__ZN6cppcms4impl3cgi7fastcgi11parse_pairsEv.0": "p0+2"}, timeout=900, bounds="every body of length 0,1,2,4,6 (exact-size heap block)"))))
+
 # properties for which no obligation can be built with this technique (reason required)
 NOT_APPLICABLE = {}
